@@ -24,7 +24,6 @@ ASSUMPTIONS = [
     "proved: legs, charge, block structure, storage layout and kernel preconditions are policy/lazy-state independent",
     "shapes enumerated as in C02",
 ]
-FUNCTIONS = list(globals().get('FUNCTIONS', [])) + EXTRA_FUNCTIONS
 NOT_DECIDED = ["contract_with_unroll / oe_blocksparse: proved only that slicing does not change the value, on one three-tensor chain per symmetry "
                "(enumerated slicings, symbolic data); path search (opt_einsum) and checkpointing are outside",
                "svd/qr inside operation sequences enter only through their structural contract (C04)"]
@@ -35,6 +34,7 @@ POLICIES = ('fuse_to_matrix', 'fuse_contracted', 'no_fusion')
 EXTRA_FUNCTIONS = ['yastn.tensor.oe_blocksparse:contract_with_unroll', 'yastn.tensor.oe_blocksparse:_contract_with_sliced_unroll', 'yastn.tensor.oe_blocksparse:_build_mask_tensor',
                    'yastn.tensor.oe_blocksparse:_expand_partial_output', 'yastn.tensor.oe_blocksparse:slice_leg_uniform', 'yastn.tensor.oe_blocksparse:make_sliced_legs',
                    'yastn.tensor.oe_blocksparse:_convert_path_to_ncon_args']
+FUNCTIONS = list(FUNCTIONS) + EXTRA_FUNCTIONS
 
 
 def same_observable(V, name, x, y, sym, exact_layout=False):
